@@ -12,7 +12,9 @@ Inductive trigger :=
   | TrTypeChange          (* D13: at Rollback, a tracked path holds an entry of another type *)
   | TrUncleanLinkTarget   (* K2: a symlink whose stored target is not lexically clean *)
   | TrLinkThroughLink     (* D17: the resolved path still has a symlink among its parents *)
-  | TrClimbingLink.       (* K3: a relative link target that lexically climbs above the root *)
+  | TrClimbingLink        (* K3: a relative link target that lexically climbs above the root *)
+  | TrDanglingParent      (* K4: a parent component of the name is a dangling symlink *)
+  | TrRelativeName.       (* D20: the operation names its path relatively *)
 
 (** evaluate a read-only monadic query on a world, discarding effects *)
 Definition query {A} (m : M A) (w : world) : option A :=
@@ -35,6 +37,40 @@ Section Trig.
                       | None => false end)
             (removelast (cands rp)).
 
+  Definition is_link_at (a : str) (w : world) : bool :=
+    match query (a_lstat b a) w with
+    | Some fi => match fi_kind fi with KLink => true | _ => false end
+    | None => false
+    end.
+
+  (** D17, on the resolution process itself: while resolving, a symlink in a
+      parent position has a target that (made absolute) runs through another
+      symlink - in one of its parents or as its last component *)
+  Fixpoint resolve_through_link (acc : list str) (f : str -> str) (w : world) : bool :=
+    match acc with
+    | [] => false
+    | q :: rest =>
+        let p := f q in
+        match query (a_lstat b p) w with
+        | None => false
+        | Some fi =>
+            match fi_kind fi with
+            | KLink =>
+                match query (a_readlink b p) w with
+                | None => false
+                | Some linked =>
+                    let l := to_abs_symlink linked p in
+                    match rest with
+                    | [] => false
+                    | _ => existsb (fun a => is_link_at a w) (cands l)
+                           || resolve_through_link rest (fun x => join2 l (trim_prefix (f x) p)) w
+                    end
+                end
+            | _ => resolve_through_link rest f w
+            end
+        end
+    end.
+
   Definition follows_final (o : op) : option str :=
     match o with
     | OCreate n _ | OChmod n _ | OChown n _ _ | OChtimes n _ => Some n
@@ -45,7 +81,7 @@ Section Trig.
   Definition op_paths (o : op) : list str :=
     match o with
     | OCreate n _ | OOpenWrite n _ _ _ | OMkdir n _ | OMkdirAll n _ | ORemove n | ORemoveAll n
-    | OChmod n _ | OChown n _ _ | OLchown n _ _ | OChtimes n _ | OForceBackup n => [n]
+    | OChmod n _ | OChown n _ _ | OLchown n _ _ | OChtimes n _ | OForceBackup n | ORealPath n => [n]
     | ORename o n => [o; n]
     | OSymlink _ n => [n]
     | _ => []
@@ -77,6 +113,17 @@ Section Trig.
     (if existsb (fun kv => match snd kv with Link _ t => climbs_above_root (fst kv) t | _ => false end) links
      then [TrClimbingLink] else []).
 
+  (** some proper prefix of the cleaned name is a symlink that leads nowhere *)
+  Definition dangling_parent (n : str) (w : world) : bool :=
+    existsb (fun a => match query (a_lstat b a) w with
+                      | Some fi =>
+                          match fi_kind fi with
+                          | KLink => match query (a_stat b a) w with Some _ => false | None => true end
+                          | _ => false
+                          end
+                      | None => false end)
+            (removelast (cands (clean n))).
+
   Definition triggers (o : op) (w : world) : list trigger :=
     (match follows_final o with
      | Some n => match resolved_kind n w with
@@ -100,7 +147,10 @@ Section Trig.
      end) ++
     (if existsb (fun n => match query (real_path b n) w with
                           | Some rp => parents_have_link rp w
-                          | None => false end) (op_paths o)
+                          | None => false end
+                          || resolve_through_link (cands (clean n)) (fun x => x) w) (op_paths o)
      then [TrLinkThroughLink] else []) ++
+    (if existsb (fun n => dangling_parent n w) (op_paths o) then [TrDanglingParent] else []) ++
+    (if existsb (fun n => negb (is_abs (clean n))) (op_paths o) then [TrRelativeName] else []) ++
     link_flags w.
 End Trig.
